@@ -40,14 +40,15 @@ def sKeyError : Name := [75, 101, 121, 69, 114, 114, 111, 114] -- "KeyError"
 def astLabel (errName : Name) (src : Name) : Label :=
   { name := sAst ++ errName, spans := [(1, ((src.count 10 : Nat) : Int) + 1, [])] }
 
-/-- `Label("ast_construction:EmptyProgramError", [Span(0, 0)])` -/
-def emptyLabel : Label := { name := sAst ++ sEmpty, spans := [(0, 0, [])] }
+/-- `Label("ast_construction:EmptyProgramError", [Span(1, source.count("\n") + 1)])` (fix 57ac228: the
+empty-program error spans the stored listing like the other construction errors). -/
+def emptyLabel (src : Name) : Label := astLabel sEmpty src
 
 /-- `ProgramParser.__call__(program)` on the stored source. -/
 def parseProgram {Tree : Type} (X : Ext Tree) (src : Name) : Except Exc (List Label) :=
   match X.parse src with
   | .error e => if e.caught then .ok [astLabel e.name src] else .error e
-  | .ok t => if X.isEmpty t then .ok [emptyLabel] else X.features src t
+  | .ok t => if X.isEmpty t then .ok [emptyLabel src] else X.features src t
 
 /-- `Cleanup("full").run = Cleanup.safe_full_cleaning` (fix c7d362e): ANY exception of the cleaning
 falls back to the uncleaned text, so that the parser reports the error. -/
